@@ -72,44 +72,37 @@ Definition num_of_text (t : text) (p : option N) (m : mode) : res num :=
   let h0 := init_hint p m in
   let isnone (o : option N) := match o with None => true | Some _ => false end in
   match t with
-  | [39; c] =>                                                   (* 'c *)
-      if is_charlit c then
-        Ok {| n_int := c; n_neg := false; n_hint := match h0 with None => Some 2 | _ => h0 end; n_mode := m |}
-      else VTE
-  | 37 :: (_ :: _) as ds =>                                      (* %bits *)
-      if all_c (fun c => (c =? 48) || (c =? 49)) ds then
-        let len := length ds in
-        if negb (Nat.eqb len 8) && negb (Nat.eqb len 16) then VTE
-        else
-          let v := parse_base 2 ds 0 in
-          if Nat.eqb len 8 && isnone p && negb (mode_eqb m MExplExtended) then
-            Ok {| n_int := v; n_neg := false; n_hint := Some 2;
-                  n_mode := if mode_eqb m MImmediate then m else MDirect |}
-          else Ok {| n_int := v; n_neg := false; n_hint := h0; n_mode := m |}
-      else VTE
-  | 36 :: (_ :: _) as ds =>                                      (* $hex *)
-      if all_c is_hexdigit ds then
-        let len := length ds in
-        if Nat.ltb 4 len then VTE
-        else
-          let v := parse_base 16 ds 0 in
-          let '(h1, m1) := if Nat.eqb len 2 && isnone p && negb (mode_eqb m MExplExtended)
-                           then (Some 2, if mode_eqb m MImmediate then m else MDirect) else (h0, m) in
-          Ok {| n_int := v; n_neg := false; n_hint := h1; n_mode := if mode_eqb m1 MNone then MExtended else m1 |}
-      else VTE
-  | 45 :: (_ :: _) as ds =>                                      (* -digits *)
-      if all_c is_digit ds then
-        let v := parse_base 10 ds 0 in
-        if 32768 <? v then VTE
-        else Ok {| n_int := v; n_neg := true; n_hint := h0; n_mode := m |}
-      else VTE
-  | _ :: _ =>
-      if all_c is_digit t then
-        let v := parse_base 10 t 0 in
-        if 65535 <? v then VTE
-        else let '(h, m') := post_init v h0 m in Ok {| n_int := v; n_neg := false; n_hint := h; n_mode := m' |}
-      else VTE
   | [] => VTE
+  | c0 :: ds =>
+    let nonempty := negb (Nat.eqb (length ds) 0) in
+    if (c0 =? 39) && Nat.eqb (length ds) 1 && is_charlit (hd 0 ds) then            (* 'c *)
+      Ok {| n_int := hd 0 ds; n_neg := false; n_hint := match h0 with None => Some 2 | _ => h0 end; n_mode := m |}
+    else if (c0 =? 37) && nonempty && all_c (fun c => (c =? 48) || (c =? 49)) ds then   (* %bits *)
+      let len := length ds in
+      if negb (Nat.eqb len 8) && negb (Nat.eqb len 16) then VTE
+      else
+        let v := parse_base 2 ds 0 in
+        if Nat.eqb len 8 && isnone p && negb (mode_eqb m MExplExtended) then
+          Ok {| n_int := v; n_neg := false; n_hint := Some 2;
+                n_mode := if mode_eqb m MImmediate then m else MDirect |}
+        else Ok {| n_int := v; n_neg := false; n_hint := h0; n_mode := m |}
+    else if (c0 =? 36) && nonempty && all_c is_hexdigit ds then                     (* $hex *)
+      let len := length ds in
+      if Nat.ltb 4 len then VTE
+      else
+        let v := parse_base 16 ds 0 in
+        let '(h1, m1) := if Nat.eqb len 2 && isnone p && negb (mode_eqb m MExplExtended)
+                         then (Some 2, if mode_eqb m MImmediate then m else MDirect) else (h0, m) in
+        Ok {| n_int := v; n_neg := false; n_hint := h1; n_mode := if mode_eqb m1 MNone then MExtended else m1 |}
+    else if all_c is_digit t then                                                  (* digits *)
+      let v := parse_base 10 t 0 in
+      if 65535 <? v then VTE
+      else let '(h, m') := post_init v h0 m in Ok {| n_int := v; n_neg := false; n_hint := h; n_mode := m' |}
+    else if (c0 =? 45) && nonempty && all_c is_digit ds then                        (* -digits *)
+      let v := parse_base 10 ds 0 in
+      if 32768 <? v then VTE
+      else Ok {| n_int := v; n_neg := true; n_hint := h0; n_mode := m |}
+    else VTE
   end.
 
 (* ---------- rendering ---------- *)
